@@ -95,7 +95,7 @@ def same(f, io, mo):
     if f[0] in ("AS", "AC"):
         return bool(io) and bool(mo) and io[0] == mo[0]
     if f[0] == "AH":                     # the RootCAs pool sizes are an observation of the implementation only
-        return io[:2] == mo[:2]
+        return io == mo if f[3].startswith("cache") else io[:2] == mo[:2]
     return io == mo
 
 
@@ -164,6 +164,17 @@ def predicate(f, io):
         sc = f[3]
         if len(io) < 5:
             return False, "incomplete observation"
+        if sc.startswith("cache"):
+            # three connections of Clone()d client configs on one ClientSessionCache: valid name (full), valid name
+            # (resumed), then the name of the scenario: a cached session must never stand in for the name check
+            if io[0] != "ok" or io[1] != "ok" or io[3] != "1":
+                return False, "control: the first two connections (valid name, the second resumed) gave %s" % " ".join(io)
+            if sc == "cache_same":
+                return (io[2] == "ok"), "control: third connection with the same name did not complete"
+            if io[2] == "ok" or io[4] == "1":
+                return False, "a client asking for a name the certificate is not valid for %s (%s)" % (
+                    "resumed a session cached for another name and completed" if io[4] == "1" else "completed", sc)
+            return True, ""
         want1 = "err" if sc == "ca_inject" else "ok"
         want2 = "ok" if sc == "honest_twice" else "err"
         if io[0] != want1:
